@@ -208,7 +208,7 @@ func monC07(c *drv.Ctx) {
 	})
 
 	// (1) load cycles: one instance, several reloads growing and shrinking, failed loads in between
-	c.Stage("load-cycles", c.Pick(2500, 150000), false, func(cs *drv.Case) {
+	c.Stage("load-cycles", c.Pick(20000, 300000), false, func(cs *drv.Case) {
 		r := cs.R
 		im := strmap.New[int]()
 		sm := strmap.NewStr2Str()
